@@ -22,12 +22,16 @@ import (
 // rollerdial: run Roller.Dial histories against a loopback TCP TLS server that recognises the ClientHelloID
 // from the hello and accepts or refuses it.
 //
-//	in:  {"ids": ["HelloChrome_120", ...] (the candidate IDs), "timeout_ms": 60000,
+//	in:  {"ids": ["Chrome-120", ..., "Randomized"] (the candidate IDs; "Randomized" = the unseeded HelloRandomized), "timeout_ms": 60000,
 //	      "scenarios": [{"id": 3, "configured": [names] (Roller.HelloIDs), "preset": name or "" (Roller.WorkingHelloID
-//	                     before the first call), "steps": [{"accept": [names], "tcpfail": bool, "n": 1|2}]}]}
-//	out: {"ev":"Table", ...} once; per Dial {"ev":"Dial", sc, step, caller, ret, seen:[names the server saw for this caller,
-//	      in order], snis:[server names of those hellos], given (the serverName argument), conn (ClientHelloID of the returned
-//	      UConn or "-"), csni (ConnectionState().ServerName of the returned conn)}; per step {"ev":"StepEnd", sc, step, working}
+//	                     before the first call), "steps": [{"accept": [parrot names], "rmode": "refuse"|"any"|"pin", "tcpfail": bool, "n": 1|2}]}]}
+//	out: {"ev":"Table", ...} once; per Dial {"ev":"Dial", sc, step, caller, ret, seen:[names the server saw for this caller, in order],
+//	      seen_k:[0 for a recognised parrot, else the number of that concrete fingerprint], seen_ok:[did the server complete that handshake],
+//	      snis, given (the serverName argument), conn (ID of the returned UConn or "-"), cseed (hex of its ClientHelloID.Seed or ""), csni};
+//	      per step {"ev":"StepEnd", sc, step, working, wseed (hex of WorkingHelloID.Seed or ""), stray}
+//
+// A hello that is none of the parrots is a randomized one; the server numbers its concrete fingerprint (exactFP). In "pin" mode it
+// accepts randomized hellos until one handshake has succeeded, and from then on only that concrete fingerprint (for the rest of the scenario).
 //
 // Roller passes a nil Config to UClient, so certificate verification uses the system roots: SSL_CERT_FILE is
 // pointed at the throw-away CA before anything is verified in this process.
@@ -35,6 +39,7 @@ import (
 
 type rollerStep struct {
 	Accept  []string `json:"accept"`
+	RMode   string   `json:"rmode"` // randomized hellos: "refuse" | "any" | "pin" (only the concrete fingerprint accepted first, for the rest of the scenario)
 	TcpFail bool     `json:"tcpfail"`
 	N       int      `json:"n"`
 }
@@ -78,15 +83,70 @@ func helloFP(chi *tls.ClientHelloInfo) string {
 	return sb.String()
 }
 
-type seenHello struct{ name, sni string }
+// exactFP: the concrete fingerprint of a hello (order sensitive; per-connection material and GREASE left out). Two
+// hellos of a randomized ID have the same exactFP iff they were generated from the same seed.
+func exactFP(chi *tls.ClientHelloInfo) string {
+	var sb strings.Builder
+	for _, s := range chi.CipherSuites {
+		if !isGrease(s) {
+			fmt.Fprintf(&sb, "%04x,", s)
+		}
+	}
+	sb.WriteString("|")
+	for _, e := range chi.Extensions {
+		if !isGrease(e) {
+			fmt.Fprintf(&sb, "%d,", e)
+		}
+	}
+	sb.WriteString("|")
+	for _, c := range chi.SupportedCurves {
+		if !isGrease(uint16(c)) {
+			fmt.Fprintf(&sb, "%04x,", uint16(c))
+		}
+	}
+	sb.WriteString("|")
+	for _, x := range chi.SignatureSchemes {
+		fmt.Fprintf(&sb, "%04x,", uint16(x))
+	}
+	sb.WriteString("|")
+	for _, v := range chi.SupportedVersions {
+		if !isGrease(v) {
+			fmt.Fprintf(&sb, "%04x,", v)
+		}
+	}
+	sb.WriteString("|" + strings.Join(chi.SupportedProtos, ","))
+	return sb.String()
+}
+
+const randName = "Randomized"
+
+func lookupID(name string) (tls.ClientHelloID, error) {
+	if name == randName {
+		return tls.HelloRandomized, nil
+	}
+	return hlib.LookupID(name)
+}
+
+type seenHello struct {
+	name string
+	k    int // 0 for a recognised parrot; for any other hello the number of its concrete fingerprint (1, 2, ... by first appearance in the scenario)
+	sni  string
+	ok   bool // the server side of this handshake completed
+}
 
 type rollerServer struct {
-	l      net.Listener
-	mu     sync.Mutex
-	accept map[string]bool
-	seen   []seenHello
-	table  map[string]string // fingerprint -> ID name
-	cert   tls.Certificate
+	l        net.Listener
+	mu       sync.Mutex
+	accept   map[string]bool
+	seen     []seenHello
+	table    map[string]string // fingerprint -> ID name
+	cert     tls.Certificate
+	rmode    string
+	fpNum    map[string]int // exactFP -> number
+	pinned   int
+	pinBusy  bool // "pin" mode, nothing pinned yet: a randomized handshake is in flight, the next randomized hello waits for its outcome
+	cond     *sync.Cond
+	inflight int
 }
 
 func (s *rollerServer) serve() {
@@ -95,24 +155,66 @@ func (s *rollerServer) serve() {
 		if err != nil {
 			return
 		}
+		s.mu.Lock()
+		s.inflight++
+		s.mu.Unlock()
 		go func(c net.Conn) {
 			defer c.Close()
 			c.SetDeadline(time.Now().Add(20 * time.Second))
+			idx, pinning := -1, false
 			srv := tls.Server(c, &tls.Config{Certificates: []tls.Certificate{s.cert}, GetConfigForClient: func(chi *tls.ClientHelloInfo) (*tls.Config, error) {
 				name, ok := s.table[helloFP(chi)]
-				if !ok {
-					name = "?"
-				}
+				k := 0
 				s.mu.Lock()
-				s.seen = append(s.seen, seenHello{name, chi.ServerName})
-				acc := s.accept[name]
+				var acc bool
+				if ok {
+					acc = s.accept[name]
+				} else {
+					// not one of the parrots: a randomized hello, identified by its concrete fingerprint
+					name = randName
+					fp := exactFP(chi)
+					if s.fpNum[fp] == 0 {
+						s.fpNum[fp] = len(s.fpNum) + 1
+					}
+					k = s.fpNum[fp]
+					switch s.rmode {
+					case "any":
+						acc = true
+					case "pin":
+						for s.pinned == 0 && s.pinBusy {
+							s.cond.Wait()
+						}
+						if s.pinned == 0 {
+							s.pinBusy, pinning, acc = true, true, true // pinned if (and only if) this handshake succeeds
+						} else {
+							acc = s.pinned == k
+						}
+					}
+				}
+				s.seen = append(s.seen, seenHello{name, k, chi.ServerName, false})
+				idx = len(s.seen) - 1
 				s.mu.Unlock()
 				if !acc {
 					return nil, errors.New("verif: this fingerprint is blocked")
 				}
 				return nil, nil
 			}})
-			if srv.Handshake() == nil {
+			err := srv.Handshake()
+			s.mu.Lock()
+			if idx >= 0 && idx < len(s.seen) {
+				s.seen[idx].ok = err == nil
+			}
+			if pinning {
+				if err == nil {
+					s.pinned = s.seen[idx].k
+				}
+				s.pinBusy = false
+				s.cond.Broadcast()
+			}
+			s.inflight--
+			s.cond.Broadcast()
+			s.mu.Unlock()
+			if err == nil {
 				buf := make([]byte, 1)
 				srv.Read(buf) // until the client closes
 			}
@@ -124,6 +226,9 @@ func (s *rollerServer) serve() {
 func learnTable(ids []string, pki *hlib.PKI, cert tls.Certificate) (map[string]string, error) {
 	table := map[string]string{}
 	for _, name := range ids {
+		if name == randName {
+			continue
+		}
 		id, err := hlib.LookupID(name)
 		if err != nil {
 			return nil, err
@@ -148,12 +253,22 @@ func learnTable(ids []string, pki *hlib.PKI, cert tls.Certificate) (map[string]s
 }
 
 func nameOfID(id tls.ClientHelloID, ids []string) string {
+	if id.Client == tls.HelloRandomized.Client {
+		return randName
+	}
 	for _, n := range ids {
-		if x, err := hlib.LookupID(n); err == nil && x == id {
+		if x, err := hlib.LookupID(n); err == nil && x.Client == id.Client && x.Version == id.Version {
 			return n
 		}
 	}
 	return id.Str()
+}
+
+func seedHex(id *tls.ClientHelloID) string {
+	if id == nil || id.Seed == nil {
+		return ""
+	}
+	return fmt.Sprintf("%x", id.Seed[:])
 }
 
 func runRoller(sc rollerScenario, ids []string, table map[string]string, cert tls.Certificate, timeout time.Duration, out *hlib.Out) error {
@@ -162,7 +277,8 @@ func runRoller(sc rollerScenario, ids []string, table map[string]string, cert tl
 		return err
 	}
 	defer l.Close()
-	srv := &rollerServer{l: l, accept: map[string]bool{}, table: table, cert: cert}
+	srv := &rollerServer{l: l, accept: map[string]bool{}, table: table, cert: cert, fpNum: map[string]int{}}
+	srv.cond = sync.NewCond(&srv.mu)
 	go srv.serve()
 	// an address nobody listens on: a socket that is bound (so that no parallel scenario can get the port) but never listens
 	fd, err := syscall.Socket(syscall.AF_INET, syscall.SOCK_STREAM, 0)
@@ -185,14 +301,14 @@ func runRoller(sc rollerScenario, ids []string, table map[string]string, cert tl
 	}
 	r.HelloIDs = nil
 	for _, n := range sc.Configured {
-		id, err := hlib.LookupID(n)
+		id, err := lookupID(n)
 		if err != nil {
 			return err
 		}
 		r.HelloIDs = append(r.HelloIDs, id)
 	}
 	if sc.Preset != "" {
-		id, err := hlib.LookupID(sc.Preset)
+		id, err := lookupID(sc.Preset)
 		if err != nil {
 			return err
 		}
@@ -206,6 +322,7 @@ func runRoller(sc rollerScenario, ids []string, table map[string]string, cert tl
 			srv.accept[n] = true
 		}
 		srv.seen = nil
+		srv.rmode = st.RMode
 		srv.mu.Unlock()
 		addr := l.Addr().String()
 		if st.TcpFail {
@@ -236,21 +353,27 @@ func runRoller(sc rollerScenario, ids []string, table map[string]string, cert tl
 			}(c)
 		}
 		wg.Wait()
+		// every accepted TCP connection has reported the outcome of its handshake (bounded by the connections' 20 s deadline)
 		srv.mu.Lock()
+		for srv.inflight > 0 {
+			srv.cond.Wait()
+		}
 		seen := append([]seenHello{}, srv.seen...)
 		srv.mu.Unlock()
 		for c := 0; c < st.N; c++ {
 			x := results[c]
 			ev := map[string]any{"ev": "Dial", "sc": sc.ID, "step": si + 1, "caller": c + 1, "given": given[c],
-				"err": hlib.ErrStr(x.err), "conn": "-", "csni": ""}
-			sn, ss := []string{}, []string{}
+				"err": hlib.ErrStr(x.err), "conn": "-", "csni": "", "cseed": ""}
+			sn, sk, ss, so := []string{}, []int{}, []string{}, []bool{}
 			for _, h := range seen {
 				if h.sni == given[c] {
 					sn = append(sn, h.name)
+					sk = append(sk, h.k)
 					ss = append(ss, h.sni)
+					so = append(so, h.ok)
 				}
 			}
-			ev["seen"], ev["snis"] = sn, ss
+			ev["seen"], ev["seen_k"], ev["snis"], ev["seen_ok"] = sn, sk, ss, so
 			ret := x.ret
 			if ret == "" {
 				switch {
@@ -258,6 +381,7 @@ func runRoller(sc rollerScenario, ids []string, table map[string]string, cert tl
 					ret = "ok"
 					ev["conn"] = nameOfID(x.uc.ClientHelloID, ids)
 					ev["csni"] = x.uc.ConnectionState().ServerName
+					ev["cseed"] = seedHex(&x.uc.ClientHelloID)
 				case x.err != nil && x.uc == nil:
 					var oe *net.OpError
 					if errors.As(x.err, &oe) && oe.Op == "dial" {
@@ -279,16 +403,17 @@ func runRoller(sc rollerScenario, ids []string, table map[string]string, cert tl
 		stray := []string{}
 		for _, h := range seen {
 			if h.sni != given[0] && h.sni != given[1] {
-				stray = append(stray, h.name+"@"+h.sni)
+				stray = append(stray, fmt.Sprintf("%s#%d@%s", h.name, h.k, h.sni))
 			}
 		}
-		w := "-"
+		w, ws := "-", ""
 		r.HelloIDMu.Lock()
 		if r.WorkingHelloID != nil {
 			w = nameOfID(*r.WorkingHelloID, ids)
+			ws = seedHex(r.WorkingHelloID)
 		}
 		r.HelloIDMu.Unlock()
-		out.Emit(map[string]any{"ev": "StepEnd", "sc": sc.ID, "step": si + 1, "working": w, "stray": stray})
+		out.Emit(map[string]any{"ev": "StepEnd", "sc": sc.ID, "step": si + 1, "working": w, "wseed": ws, "stray": stray})
 	}
 	return nil
 }
